@@ -30,3 +30,5 @@
 ; prefix sums (delta coding): psum(s, k) = s[0] + ... + s[k-1]
 (define-fun-rec psum ((s (Array Int Int)) (k Int)) Int
   (ite (<= k 0) 0 (+ (psum s (- k 1)) (select s (- k 1)))))
+; zsize[r]: number of bytes reader r still yields before EOF (the inflated size of a zlib stream)
+; ghost zsize (Array Iface Int)
